@@ -73,7 +73,7 @@ def prepare(data, info, time_entries=1, force_copy=False, report_conversion=Fals
             data = UNITS.Quantity(
                 np.ma.array(
                     data=data.magnitude,
-                    mask=info.mask,
+                    mask=_info_mask(data.magnitude, info),
                     shrink=False,
                     fill_value=info.fill_value,
                 ),
@@ -89,7 +89,7 @@ def prepare(data, info, time_entries=1, force_copy=False, report_conversion=Fals
             data = UNITS.Quantity(
                 np.ma.array(
                     data=data,
-                    mask=info.mask,
+                    mask=_info_mask(data, info),
                     shrink=False,
                     fill_value=info.fill_value,
                     copy=force_copy,
@@ -111,6 +111,15 @@ def prepare(data, info, time_entries=1, force_copy=False, report_conversion=Fals
     if report_conversion:
         return data, units_converted
     return data
+
+
+def _info_mask(data, info):
+    """Mask of the info; flattened in the grid's memory order for flat data."""
+    mask = info.mask
+    if np.ndim(data) == 1 and np.ndim(mask) > 1 and isinstance(info.grid, Grid):
+        # flat data is interpreted in grid order, numpy would flatten the mask in C order
+        mask = np.ravel(mask, order=info.grid.order)
+    return mask
 
 
 def _check_input_shape(data, info, time_entries):
